@@ -444,6 +444,8 @@ def _build(v, w):
     if tag == "$mvs":  # a window onto a larger read-only buffer (header + payload + trailer)
         body = bytes.fromhex(a)
         return memoryview(b"\x02LEN=0042;" + body + b";CRC=1f\x03")[10:10 + len(body)]
+    if tag == "$mvro":  # a read-only view of a bytearray (unhashable exporter behind a read-only face)
+        return memoryview(bytearray(bytes.fromhex(a))).toreadonly()
     if tag == "$mm":  # a read-only view of a shared mapping (a message slot): hashable, yet its content can change
         import mmap
 
